@@ -43,7 +43,7 @@ def gen_scenarios(seed, tier):
             return out
         d = dict(idx=i, base=rng.choice(["sync", "pool"]), base_name=rng.choice(["bn", "bn", None]),
                  before=chain(rng.choice([0, 0, 1, 2])), after=chain(rng.choice([0, 1, 1, 2, 3])),
-                 flat=rng.random() < 0.3, callable=rng.choice(["function", "partial", "object", "bound"]),
+                 flat=rng.random() < 0.3, callable=rng.choice(["function", "partial", "partial-kw", "object", "bound"]),
                  script=[rng.choice(["ok", "ok", "err"]) for _ in range(4)], seed=rng.randrange(1 << 30))
         d.update(schedule_modes(rng))
         d["trace_lines"] = rng.random() < 0.3
@@ -116,6 +116,9 @@ def body_for(desc, ctx):
                 raise EXC["E0"]("a%d" % i)
             if desc["callable"] == "partial":
                 fn = functools.partial(lambda pad, x: raw(x), 0)
+            elif desc["callable"] == "partial-kw":
+                # a partial carrying a keyword that the call overrides: the call's value wins, as for the plain partial
+                fn = functools.partial(lambda x, tag="default": raw((x, tag)), tag="from-partial")
             elif desc["callable"] == "object":
                 fn = CallObj(raw)
             elif desc["callable"] == "bound":
@@ -137,14 +140,14 @@ def body_for(desc, ctx):
                 target = ex.flat_bind(fn) if desc["flat"] else ex.bind(fn)
                 for (layer, nm) in desc["after"]:
                     target = apply_layer(target, layer, nm)
-                fut = target(7)
+                fut = target(7, tag="from-call") if desc["callable"] == "partial-kw" else target(7)
                 top = None
             else:
                 if desc["flat"]:
                     ex = ex.with_flat_map(lambda f: f)
                 for (layer, nm) in desc["after"]:
                     ex = apply_layer(ex, layer, nm)
-                fut = ex.submit(fn, 7)
+                fut = ex.submit(fn, 7, tag="from-call") if desc["callable"] == "partial-kw" else ex.submit(fn, 7)
                 top = ex
             if not fut.done():
                 s.block(lambda: fut.done(), s.now + 500.0, ("waitout",))
